@@ -175,7 +175,7 @@ class _ParserWalk:
                 src = ast.unparse(st)
                 if 'args_dict.pop(key)' in src:
                     self.term_popped += ks
-                self.walk(st.body, ks, guard, None, when)
+                self.walk(st.body, ks, (guard or []) + ['for key in ...'], None, when)
                 return
             if (isinstance(st.target, ast.Tuple) and isinstance(it, ast.Call)
                     and ast.unparse(it) == 'files.items()'):
@@ -197,15 +197,31 @@ class _ParserWalk:
             if isinstance(test, ast.Name) and test.id in self.allvar or tsrc == 'all_files':
                 if any(isinstance(b, ast.Raise) and 'TypeError' in ast.unparse(b) for b in st.body):
                     sec = 'files' if tsrc == 'all_files' else self.allvar[test.id]
+                    # The model (Model/Cli.v parse_section) rejects a section with leftover keys
+                    # UNCONDITIONALLY.  A rejection that only runs under some other condition
+                    # (e.g. `if solver: if all_solver: raise ..`: skipped when no documented option
+                    # was recognised) is not that behaviour: fail closed.
+                    if guard:
+                        raise Shape(f'unknown-key rejection of [{sec}] is only executed under '
+                                    f'the condition(s) {guard}')
+                    if not isinstance(st.body[0], ast.Raise) or st.orelse:
+                        raise Shape(f'unknown-key rejection of [{sec}]: unexpected shape')
                     self.rejecting.append(sec)
                     return
+            # conditions a rejection below would depend on; `'sec' in cfg.sections()` is the
+            # section guard itself (no section, no keys) and does not count
+            if re.fullmatch(r"'\w+' in cfg\.sections\(\)", tsrc):
+                g_body = g_else = guard
+            else:
+                g_body = (guard or []) + [tsrc[:60]]
+                g_else = (guard or []) + ['not (' + tsrc[:60] + ')']
             m = re.fullmatch(r"term\['function'\] == '(\w+)'", tsrc)
             if m:
-                self.walk(st.body, keys, guard, in_else_of, m.group(1))
-                self.walk(st.orelse, keys, guard, in_else_of, when)
+                self.walk(st.body, keys, g_body, in_else_of, m.group(1))
+                self.walk(st.orelse, keys, g_else, in_else_of, when)
                 return
-            self.walk(st.body, keys, guard, in_else_of, when)
-            self.walk(st.orelse, keys, guard, in_else_of, when)
+            self.walk(st.body, keys, g_body, in_else_of, when)
+            self.walk(st.orelse, keys, g_else, in_else_of, when)
             return
         if isinstance(st, (ast.With,)):
             self.walk(st.body, keys, guard, in_else_of, when)
@@ -213,7 +229,12 @@ class _ParserWalk:
         if isinstance(st, ast.Expr):
             self._pops(st.value)
             return
-        if isinstance(st, (ast.Raise, ast.Return, ast.Delete, ast.Continue, ast.Pass)):
+        if isinstance(st, ast.Return):
+            # an early return would skip the unknown-key checks of the sections below it
+            if guard or st is not self.fn.body[-1]:
+                raise Shape('parse_config_file returns before its last statement')
+            return
+        if isinstance(st, (ast.Raise, ast.Delete, ast.Continue, ast.Pass)):
             return
         raise Shape('unrecognised statement: ' + ast.unparse(st)[:80])
 
